@@ -162,6 +162,9 @@ class FollowLinks(Suite):
             return Verdict(False, False, "C18: FollowLinks failed: %s" % impl["ferr"][:200])
         agree = impl.get("out") == model.get("m")
         ok = model.get("spec_i")
+        if model.get("fuel_ok") is False:
+            # premise of C18.model_run_is_the_unbounded_run: the transcription ran out of fuel, its answer is not the resolver's
+            return Verdict(False, ok, "the model's run of the resolver was cut short by its fuel (resolveAllX flag up): no answer to compare with")
         return Verdict(agree, ok, "impl=%s model=%s spec(impl)=%s %s" % (
             None if impl.get("out") is None else [bytes.fromhex(p) for p in impl["out"]],
             None if model.get("m") is None else [bytes.fromhex(p) for p in model["m"]], ok, model.get("spec_i_why")))
